@@ -30,7 +30,8 @@ Apply(e) ==
       [] e.ev = "cancel"  -> PCancel(e.id)
       [] e.ev = "quiet"   -> PQuiet(SeqToSet(e.blk))
       [] e.ev = "spin"    -> PSpin(e.actor)
-      [] e.ev \in {"leak", "note", "end"} -> UNCHANGED pvars
+      \* "step" / "teardown": controller steps logged for X-level trace validation (Once/MemoXTrace.tla)
+      [] e.ev \in {"leak", "note", "end", "step", "teardown"} -> UNCHANGED pvars
       [] OTHER            -> /\ bad' = bad \cup {"Unexplained"}
                              /\ UNCHANGED <<kind, fnst, fnval, cst, cinfo, canc, errRet>>
 
